@@ -238,6 +238,12 @@ impl SocketWorker {
 
     fn run_inner(&mut self, ring: &mut IoUring) {
         loop {
+            // Verification hook: fault injection point
+            #[cfg(aquatic_verif)]
+            if aquatic_common::verif::fault("udp_socket", 0) {
+                return;
+            }
+
             for sqe in self.resubmittable_sqe_buf.drain(..) {
                 unsafe { ring.submission().push(&sqe).unwrap() };
             }
